@@ -750,9 +750,9 @@ def octal_to_dec_both_trees(
         return Some(SemPredEvalResult(None))
 
     decimal_number = int(str(decimal))
-    octal_number = int(str(octal))
+    octal_number = int(str(octal), 8)
 
-    return Some(SemPredEvalResult(int(oct(octal_number)[2:]) == decimal_number))
+    return Some(SemPredEvalResult(octal_number == decimal_number))
 
 
 def OCTAL_TO_DEC_PREDICATE(graph, octal_start, decimal_start):
